@@ -403,6 +403,11 @@ def finalize (s : St) (id : Nat) (markFault : Bool) : St × FinOut :=
 /-- `clientdb.DeletePendingBatch` (what the funding manager does when a new proposal arrives) -/
 def unstage (s : St) : St := { s with db := { s.db with staged := none } }
 
+/-- `clientdb.UpdateAccount` by an account RPC: the stored account moves to a new outpoint / output -/
+def modAcct (s : St) (k : Key) (op : OutPoint) (out : Out) : St :=
+  { s with db := { s.db with accts := s.db.accts.map fun a =>
+      if a.key == k then { a with outpoint := op, out := out } else a } }
+
 /-! ## Histories -/
 
 inductive Op
@@ -410,6 +415,7 @@ inductive Op
   | sign (f : Faults) (nonces : List Key) (prev : List Out)
   | finalize (id : Nat) (markFault : Bool)
   | unstage
+  | modAcct (k : Key) (op : OutPoint) (out : Out)   -- an account RPC (deposit/withdraw/renew) between messages
 deriving DecidableEq, Repr
 
 inductive Res
@@ -417,6 +423,7 @@ inductive Res
   | sign (o : SignOut)
   | fin (o : FinOut)
   | unstaged
+  | modded
 deriving DecidableEq, Repr
 
 /-- the Sign message's auxiliary data is written into the pending batch before `BatchSign` -/
@@ -428,6 +435,7 @@ def step (verifyOk : St → Batch → Bool) (s : St) : Op → St × Res
   | .sign f nonces prev => let r := batchSign (attachAux s nonces prev) f; (r.1, .sign r.2)
   | .finalize id mf => let r := finalize s id mf; (r.1, .fin r.2)
   | .unstage => (unstage s, .unstaged)
+  | .modAcct k op out => (modAcct s k op out, .modded)
 
 /-- run a history, returning the state after it and the per-op results -/
 def run (verifyOk : St → Batch → Bool) : St → List Op → St × List Res
